@@ -25,6 +25,7 @@ EXPLANATION = (
     "Double-precision rounding of the quotient, exponent notation and panic-freedom over all u128 are value "
     "computations and are NOT claimed.")
 EXPLANATION += (' R18.5 (= R15.13) --bytes-format has no clap default: sizes keep the base configured through Divan::bytes_format.')
+EXPLANATION += (" R18.6 format_bytes prints format_f64(scale_value(val, fmt).0, sig_figs) with the caller's sig_figs on every path, suffix of the same scale.")
 NOT_DECIDED = ["double-precision rounding of the float path (the property itself allows it for sizes/throughputs), absence of exponent notation",
                "panic-freedom of formatting over all u128 / f64 values (picos * multiple can overflow for precisions far above the 4 divan uses)"]
 
